@@ -297,7 +297,7 @@ pub fn spec() -> PropSpec {
             "UserControl messages are generated well-formed (with exactly the fields of their event type)",
         ],
         checks: vec![
-            PropCheck::new("message-to-payload-and-back", |_| (rm_strategy(), gen::edge_u32(), gen::edge_u32()).prop_map(|(msg, ts, msid)| Case { msg, ts, msid }).boxed(), 20_000, 800_000, eval_roundtrip),
+            PropCheck::new("message-to-payload-and-back", |_| (rm_strategy(), gen::edge_u32(), gen::edge_u32()).prop_map(|(msg, ts, msid)| Case { msg, ts, msid }).boxed(), 120_000, 4_000_000, eval_roundtrip),
             PropCheck::new("reference-body-decodes", |_| {
                 let m = prop_oneof![
                     3 => rm_strategy(),
@@ -305,7 +305,7 @@ pub fn spec() -> PropSpec {
                     3 => (gen::amf_string(false, true), gen::amf_number_bits(), gen::amf_value(AmfCfg::WIRE), gen::amf_values(AmfCfg::WIRE, 4)).prop_map(|(n, t, o, a)| RM::Command(n, t, o, a)),
                 ];
                 (m, 0u8..3).prop_filter("legal chunk sizes only", |(m, _)| !matches!(m, RM::SetChunkSize(v) if *v > 0x7FFF_FFFF)).prop_map(|(msg, alias)| DecCase { msg, alias }).boxed()
-            }, 20_000, 800_000, eval_decode),
+            }, 120_000, 4_000_000, eval_decode),
             PropCheck::new("all-type-ids-arbitrary-bodies", |_| {
                 let body = prop_oneof![
                     3 => proptest::collection::vec(any::<u8>(), 0..12),
@@ -315,7 +315,7 @@ pub fn spec() -> PropSpec {
                     2 => (gen::pick(rm::UC_EVENTS), proptest::collection::vec(any::<u8>(), 8)).prop_map(|(e, b)| { let n = rm::uc_field_count(e).unwrap(); let mut v = e.to_be_bytes().to_vec(); v.extend_from_slice(&b[..4 * n]); v }),
                 ];
                 (prop_oneof![1 => any::<u8>(), 2 => gen::pick(rm::KNOWN_TYPES)], body).prop_map(|(type_id, body)| RawCase { type_id, body }).boxed()
-            }, 30_000, 1_000_000, eval_raw),
+            }, 200_000, 5_000_000, eval_raw),
             EnumCheck::new("type-id-sweep", true, |_| {
                 let mut v = Vec::new();
                 for t in 0..=255u8 {
@@ -325,7 +325,7 @@ pub fn spec() -> PropSpec {
                 }
                 v
             }, eval_raw),
-            PropCheck::new("chunk-size-limit", |_| prop_oneof![2 => (-4i64..5).prop_map(|k| (0x8000_0000i64 + k) as u32), 1 => any::<u32>(), 1 => gen::edge_u32()].prop_map(|size| SizeCase { size }).boxed(), 4_000, 100_000, eval_size),
+            PropCheck::new("chunk-size-limit", |_| prop_oneof![2 => (-4i64..5).prop_map(|k| (0x8000_0000i64 + k) as u32), 1 => any::<u32>(), 1 => gen::edge_u32()].prop_map(|size| SizeCase { size }).boxed(), 20_000, 500_000, eval_size),
         ],
     }
 }
